@@ -333,6 +333,27 @@ theorem lookup_not_fuel (g : Graph) (n : Bytes) (m : String) (h : lookup g n = .
     rw [Canon.canon_spec (c :: r) (by simp)] at h
     cases h
 
+theorem lookupM_lt (g : Graph) (a : Args) (n : Bytes) (t : Nat) (h : lookupM g a n = .ok (some t)) : t < g.nFiles := by
+  unfold lookupM at h
+  split at h
+  · rename_i t' hl
+    have := lookup_lt g n t' hl
+    split at h
+    · split at h
+      · cases h; exact this
+      · cases h
+    · cases h; exact this
+  · rename_i r hne
+    exact lookup_lt g n t h
+
+theorem lookupM_not_fuel (g : Graph) (a : Args) (n : Bytes) (m : String) (h : lookupM g a n = .panic m) : m ≠ "fuel" := by
+  unfold lookupM at h
+  split at h
+  · split at h
+    · split at h <;> cases h
+    · cases h
+  · exact lookup_not_fuel g n m h
+
 /-- Every way `run::build` marks its targets — the manifest, named targets, defaults, or every
     file — terminates. -/
 theorem wantTargets_fuelOK (g : Graph) (gok : GraphOK g) (fok : FilesOK g) (a : Args) (ns : List Bytes) (s : S) :
@@ -348,7 +369,7 @@ theorem wantTargets_fuelOK (g : Graph) (gok : GraphOK g) (fok : FilesOK g) (a : 
     · rename_i t hl
       split
       · exact ih s
-      · have hw := want_never_out_of_fuel g gok fok s t (lookup_lt g n t hl)
+      · have hw := want_never_out_of_fuel g gok fok s t (lookupM_lt g a n t hl)
         split
         · rename_i s' _; exact ih s'
         · rename_i r hne
@@ -356,7 +377,7 @@ theorem wantTargets_fuelOK (g : Graph) (gok : GraphOK g) (fok : FilesOK g) (a : 
           | ok u s' => exact absurd h (hne u s')
           | err m s' => trivial
           | bad m => rw [h] at hw; exact hw
-    · rename_i m hl; exact lookup_not_fuel g n m hl
+    · rename_i m hl; exact lookupM_not_fuel g a n m hl
     · show "lookup" ≠ "fuel"; decide
 
 end N2V.Run
